@@ -46,7 +46,10 @@ def run(ctx):
     mrep = json.loads(r.stdout)
     for d in mrep["disagreements"]:
         ctx.disagreement(d["sig"], d["detail"], d["case"])
+    import p_boot
+    boot = p_boot.run(ctx, p_boot.K_C13, 120 if ctx.tier == "thorough" else 24, "C13")
     C.write_evidence(ctx, "model_checking", {
+        "bootstrap": boot,
         "states": max(1, ndefs), "transitions": max(1, ndefs + mrep["evaluations"]),
         "traces_validated_against_impl": mrep["evaluations"],
         "evaluations": ndefs + mrep["evaluations"], "distinct_nontrivial": ndefs,
